@@ -40,5 +40,5 @@ GSpec == GInit /\ [][GNext]_<<sel, miss, last>>
 
 Classes == {[par |-> e.par, prop |-> e.prop, class |-> EntryClass(Cfg, e)] : e \in Cfg}
 Emit1 == PrintT(<<"BEH", ToJson([cfg |-> Cfg, allowed |-> Allowed(Cfg), classes |-> Classes,
-                                 missing |-> Missing(Cfg), exp |-> Exp(Cfg)])>>)
+                                 missing |-> Missing(Cfg), why |-> WhyRejected(Cfg), exp |-> Exp(Cfg)])>>)
 =============================================================================
